@@ -38,6 +38,8 @@ Definition denote (s : list word) : list av := map w_val s.
    printer's own spelling of a value
      - decimal integers with the suffix i            -12i
      - hexadecimal integers, plain or with i / h     0x1f  -0x1fi  0xffh
+     - decimal floating point literals without the exact value, plain or with
+       the suffix f / d                                1.5  -0.25f  3.0d
      - (the h suffix of decimal 64-bit integers, character escapes, true false
         nil inf are spellings of the printer already)
    and between two words white space that may hold comments
@@ -49,26 +51,39 @@ Inductive isuf := SufNone | SufI | SufH.
 Definition isuf_text (s : isuf) : list Z :=
   match s with SufNone => [] | SufI => [105] | SufH => [104] end.
 
+Inductive fsuf := FsNone | FsF | FsD.
+Definition fsuf_text (s : fsuf) : list Z :=
+  match s with FsNone => [] | FsF => [102] | FsD => [100] end.
+
+(* a decimal floating point literal "[-]<digits>.<digits>" *)
+Definition dec_literal (neg : bool) (n1 : Z) (fr : list Z) : list Z :=
+  (if neg then [45] else []) ++ dec_nat n1 ++ 46 :: fr.
+
 Inductive gtok :=
 | GPrinted (v : av) (o : popts) (cols : Z)
 | GDecI (v : Z)
-| GHex (neg : bool) (ds : list Z) (suf : isuf).
+| GHex (neg : bool) (ds : list Z) (suf : isuf)
+| GFlt (neg : bool) (n1 : Z) (fr : list Z) (suf : fsuf).   (* 1.5  -0.25f  3.0d : no exact value *)
 
 Definition gtok_text (g : gtok) : option (list Z) :=
   match g with
   | GPrinted v o cols => match print_scalar o v cols with Some (t, _, _) => Some t | None => None end
   | GDecI v => Some (print_d v ++ [105])
   | GHex neg ds suf => Some ((if neg then [45] else []) ++ [48; 120] ++ ds ++ isuf_text suf)
+  | GFlt neg n1 fr suf => Some (dec_literal neg n1 fr ++ fsuf_text suf)
   end.
 
 (* the value a word denotes; a 32-bit hexadecimal literal above 0x7fffffff
    denotes the negative number with that bit pattern *)
-Definition gtok_val (g : gtok) : av :=
+(* dec2f / dec2d: the float / double libc gives a decimal literal (oracles) *)
+Definition gtok_val (dec2f dec2d : list Z -> Z) (g : gtok) : av :=
   match g with
   | GPrinted v _ _ => v
   | GDecI v => VI v
   | GHex neg ds SufH => VH (sgn neg (hexval ds))
   | GHex neg ds _ => VI (wrap32 (sgn neg (hexval ds)))
+  | GFlt neg n1 fr FsD => VD (dec2d (dec_literal neg n1 fr))
+  | GFlt neg n1 fr _ => VFl (dec2f (dec_literal neg n1 fr))
   end.
 
 (* separators: non-empty white space, then any number of comments, each followed
@@ -95,4 +110,5 @@ Fixpoint gspell (s : list gword) : option (list Z) :=
       end
   end.
 
-Definition gdenote (s : list gword) : list av := map (fun w => gtok_val (g_tok w)) s.
+Definition gdenote (dec2f dec2d : list Z -> Z) (s : list gword) : list av :=
+  map (fun w => gtok_val dec2f dec2d (g_tok w)) s.
